@@ -11,6 +11,27 @@ def unicode_ignorecase_mask(cp):
 relib.unicode_ignorecase_mask = unicode_ignorecase_mask
 
 
+# tool bug (crosshair 0.0.110 libimpl/mathlib._copysign): `-x if invert else x` on a CONCRETE integer zero returns the int 0, so
+# math.copysign(0, -0.5) is 0 instead of -0.0 under the tracer (a false alarm on code that uses the idiom).  Concrete arguments go to the
+# real function; symbolic ones keep the model.
+import math as _math
+import crosshair.core_and_libs  # noqa: F401,E402  (makes the registrations)
+from crosshair import core as _core  # noqa: E402
+from crosshair.tracers import NoTracing as _NoTracing  # noqa: E402
+_copysign_model = _core._PATCH_REGISTRATIONS.get(_math.copysign)
+
+
+def _copysign_fixed(x, y):
+    with _NoTracing():
+        if isinstance(x, (int, float)) and isinstance(y, (int, float)):
+            return _math.copysign(x, y)
+    return _copysign_model(x, y)
+
+
+if _copysign_model is not None:
+    _core._PATCH_REGISTRATIONS[_math.copysign] = _copysign_fixed
+
+
 def patch_elementpath():
     """C-level constructors do not accept CrossHair's symbolic proxies: `int.__new__(Integer, <symbolic str>)` raises a TypeError
     that elementpath maps to FORG0001, so every string would look "not castable" (a false PASS hazard, found by a debugging
